@@ -139,6 +139,15 @@ func (s *Storage) SetGone(kind int, id string, gone bool) {
 	}
 }
 
+// Tamper overwrites the stored bytes of (kind, id): an adversary (or operator) editing the back end directly.
+func (s *Storage) Tamper(kind int, id string, data []byte) {
+	for i := range s.Entries {
+		if s.Entries[i].Kind == kind && s.Entries[i].Id == id {
+			s.Entries[i].Data = data
+		}
+	}
+}
+
 // Get returns the stored bytes of (kind, id), nil when absent.
 func (s *Storage) Get(kind int, id string) []byte {
 	for _, e := range s.Entries {
